@@ -195,3 +195,12 @@ def concretize_int(t, limit=80):
         if decide(t == v):
             return v
     raise SymbolicBranch("more than %d feasible values for %s" % (limit, str(s)[:100]))
+
+
+def inverse(b):
+    key = ("inv", b.sexpr())
+    if key not in _cur.ufuns:
+        v = fresh("inv")
+        _cur.side.append(z3.Implies(b != 0, v * b == 1))
+        _cur.ufuns[key] = v
+    return _cur.ufuns[key]
